@@ -236,6 +236,37 @@ def _read_glue(s0: int, s1: int, sub: Optional[int], nsub: int, ntop: int) -> bo
             and len(log) == ntop and all(e == (s0, s1, ['FILES'], d, False, sub) and e[3] is d for e in log))
 
 
+class _TopData(_Top):
+    """a top-level directory that contributes concrete blocks to the shared mapping"""
+    def __init__(self, log, blocks): self.log = log; self.blocks = blocks
+    def _read(self, start_sample, end_sample, filepaths, cont_data_dict, len_only=False, sub_channel=None):
+        self.log.append((start_sample, end_sample))
+        for k, ln in self.blocks:
+            if k + ln - 1 >= start_sample and k <= end_sample: cont_data_dict[k] = ln if len_only else [k + i for i in range(ln)]
+
+
+def _read_all_dirs(order: int, lo: int, hi: int, len_only: bool) -> bool:
+    """
+    pre: 0 <= order <= 5 and 0 <= lo <= 12 and 17 <= hi <= 29
+    post: _
+    """
+    # sessions interleaved over three top-level directories (blocks [0,10) [10,20) [20,30) in any assignment / order of directories): a read
+    # visits EVERY directory -- also when the blocks found so far already touch both ends of the request -- and hands the union to the merge
+    perms = [(0, 1, 2), (0, 2, 1), (1, 0, 2), (1, 2, 0), (2, 0, 1), (2, 1, 0)]
+    blocks = [[(0, 10), (20, 10)], [(10, 10)], []]
+    log = []
+    r = H.DigitalRFReader.__new__(H.DigitalRFReader)
+    props = {'num_subchannels': 1, 'subdir_cadence_secs': 3600, 'file_cadence_millisecs': 1000, 'samples_per_second': 'SPS',
+             'sample_rate_numerator': 'NUM', 'sample_rate_denominator': 'DEN'}
+    r._channel_dict = {'ch': _Chan([_TopData(log, blocks[i]) for i in perms[order]], props)}
+    r._get_file_list = lambda *a: ['FILES']
+    r._combine_blocks = lambda d, len_only=False: ('combined', d, len_only)
+    out = r.get_continuous_blocks(lo, hi, 'ch') if len_only else r.read(lo, hi, 'ch')
+    d = out[1]
+    want = [k for k in (0, 10, 20) if k + 9 >= lo and k <= hi]
+    return out[0] == 'combined' and len(log) == 3 and sorted(d.keys()) == want
+
+
 def _read_glue_errors(s0: int, s1: int, sub: Optional[int], nsub: int) -> bool:
     """
     pre: 1 <= nsub <= 3 and 0 <= s0 <= 3 and 0 <= s1 <= 3
